@@ -143,15 +143,35 @@ def copy_state(src: str, dst: str) -> None:
 
 # ------------------------------------------------------------------ traces
 
-def read_trace(path: str) -> list[dict[str, Any]]:
+class Trace(list):
+    """Completed operations; .uncertain = some operation was begun but has no completion record (its process was
+    killed from outside in between: it may or may not have taken effect)."""
+    uncertain: bool = False
+
+
+def read_trace(path: str) -> "Trace":
+    evs = Trace()
     if not os.path.exists(path):
-        return []
-    evs = []
+        return evs
+    begun: dict[tuple, int] = {}
     with open(path) as f:
         for line in f:
             line = line.strip()
-            if line:
-                evs.append(json.loads(line))
+            if not line:
+                continue
+            try:
+                e = json.loads(line)
+            except ValueError:      # a line cut by the kill
+                evs.uncertain = True
+                continue
+            key = (e.get("pid"), e.get("kind"), e.get("name"), e.get("occ"))
+            if e.get("begin"):
+                begun[key] = begun.get(key, 0) + 1
+            else:
+                begun[key] = begun.get(key, 0) - 1
+                evs.append(e)
+    if any(v > 0 for v in begun.values()):
+        evs.uncertain = True
     return evs
 
 
@@ -317,7 +337,14 @@ class Setup:
         for wv in writes:
             out.append(dict(common, fault="fail", fail=[wv]))
         if pairs:
-            for a, b in itertools.combinations(writes, 2):
+            allp = list(itertools.combinations(writes, 2))
+            same = [(a, b) for a, b in allp if NAME_RE.match(a[2]) and NAME_RE.match(b[2])
+                    and NAME_RE.match(a[2]).group("mod") == NAME_RE.match(b[2]).group("mod")]
+            cross = [pr for pr in allp if pr not in same]
+            rng = vlib.Rng(seed, f"pairs/{self.hist['name']}/{self.store}/{self.mode}")
+            if len(cross) > 12:     # every same-module pair; a seeded sample of the cross-module ones
+                cross = rng.sample(cross, 12)
+            for a, b in same + cross:
                 out.append(dict(common, fault="fail", fail=[a, b]))
         return out
 
@@ -554,6 +581,10 @@ def outcome_correspondence(ctx: vlib.Ctx, setups: list[Setup]) -> None:
         for r in getattr(s, "results", []):
             if r.get("warm_trace") is None:
                 continue
+            if getattr(r["trace"], "uncertain", False) and not (r["case"]["fault"] == "crash" and r["case"]["crash"]["when"] == "after"):
+                # a process was killed from outside INSIDE a store operation: whether it took effect is unknown
+                ctx.add("outcome_cases_skipped_op_in_flight", 1)
+                continue
             procs = per_process(r["trace"])
             for x in names:
                 steps: list[tuple[str, str, bool]] = []
@@ -694,6 +725,7 @@ def search(ctx: vlib.Ctx, hist_names: list[str], configs: list[tuple[str, str]],
             for i, c in enumerate(s.cases(pairs, both_scopes, ctx.seed)):
                 jobs.append((s, i, c))
         t = time.time()
+        ctx.log(f"{len(jobs)} fault cases enumerated")
         par_jobs = max(4, vlib.NPROC - 2)
         with ThreadPoolExecutor(max_workers=par_jobs) as ex:
             results = list(ex.map(lambda j: (j[0], j[0].run_case(j[1], j[2])), jobs))
@@ -847,8 +879,7 @@ def run(ctx: vlib.Ctx) -> None:
     if proto is not None:
         trace_correspondence(ctx, setups)
         outcome_correspondence(ctx, setups)
-    n_f2 = sum(1 for v in ctx.violations if v.key.startswith("F2"))
-    if proved and safe is False and n_f2 == 0:
+    if proved and safe is False and not ctx.violations:
         # the model refutes the property on the generated order, but no witness was reproduced on the implementation
         ctx.broke("P", "crash_safe for the generated op order",
                   "the generated op order fails the side condition and is refuted in the model, but the fault enumeration "
